@@ -179,3 +179,22 @@ func zzJSONIsText(b []byte, text string) {
 		zzvrt.Assert(zzvrt.StrEq(got, text), "C13:json-is-the-quoted-text")
 	}
 }
+
+// ZZC13VarText: a number / monetary variable given as text denotes the base-ten reading of
+// its digits (leading zeros, explicit sign), or is rejected; want = expected String() of the
+// value, "" when the text is not a value of the type.
+func ZZC13VarText(typ, text, want string) {
+	p := Parse("vars {\n  " + typ + " $v\n}\nset_tx_meta(\"k\", $v)\nset_account_meta(@x, \"k\", $v)")
+	res, err := p.Run(context.Background(), VariablesMap{"v": text}, StaticStore{})
+	if want == "" {
+		zzvrt.Assert(err != nil, "C13:text-that-is-not-a-value-is-rejected")
+		zzvrt.Reach("c13-vartext-end")
+		return
+	}
+	zzvrt.Assert(err == nil, "C13:value-of-the-type-accepted")
+	if err == nil {
+		zzvrt.Assert(res.Metadata["k"].String() == want, "C13:variable-text-read-in-base-ten")
+		zzvrt.Assert(res.AccountsMetadata["x"]["k"] == want, "C13:variable-text-read-in-base-ten")
+	}
+	zzvrt.Reach("c13-vartext-end")
+}
